@@ -54,6 +54,11 @@ def run(ctx: Ctx, env):
         ctx.check(k in op_tokens.values(), "R4.operator-has-token", k, f"no token's action builds ast.{k}")
     ctx.floor("operator tokens", len(op_tokens), 14)
 
+    # --- R8: what the actions build is what they ask for -------------------------------------------
+    from .common import check_node_construction
+    check_node_construction(ctx, env, "R8.nodes-built-as-written", "the tree no longer has the shape the grammar's actions give it "
+                            "(e.g. `not not a` parsed as `a`)")
+
     # --- R1: grammar sanity -------------------------------------------------------------------
     from ..lr import Grammar
     undefined = Grammar(g).undefined_symbols()
